@@ -754,9 +754,19 @@ def walk_class(ctx, prop, base, safe, ix, j, sf, d, c, path):
                     continue        # an inner class of a private ancestor next to an own inner class of that name:
                                     # two different declarations (C17 speaks of methods; C03 of declarations)
                 p = "C17" if n in inh_names else "C03"
+                # the member is defined under two DIFFERENT direct private bases (K17-two-private-bases-same-member)
+                two_bases = 0
+                for sup in c["superclasses"]:
+                    if sup.split(".")[-1].startswith("_"):
+                        sc0 = ix.find_class(sup)
+                        if sc0 is not None:
+                            br = [sc0] + private_ancestors(ix, sc0, [])
+                            if any(x["name"] == n for a0 in br for x in a0["methods"] + a0["attributes"]):
+                                two_bases += 1
                 if prop == p:
                     ctx.oracle_failure(p, f"member {n!r} emitted {cnt} times in class {c['id']}",
-                                       {**rb, "member": n, "private_diamond": diamond, "inherited": n in inh_names})
+                                       {**rb, "member": n, "private_diamond": diamond, "inherited": n in inh_names,
+                                        "two_private_bases": two_bases >= 2})
         if prop == "C03":
             for n in exp_names - set(seen):
                 ctx.oracle_failure("C03", f"public member {n!r} of {c['id']} is missing from its stub", {**rb, "member": n})
